@@ -285,8 +285,11 @@ def B8_history_tables(ctx):
         ret = [e for e in p.events if e.kind == 'ret'][0].d['value']
         d1 = [a for a in p.events if a.kind == 'atom' and a.d['term'][0] == 'discr' and strip(a.d['term'][1]) == ('arg', 1)]
         fa = [a for a in p.events if a.kind == 'atom' and a.d['term'][0] == 'discr' and len(a.d['term']) > 2 and a.d['term'][2].endswith('FinalizedAccount')]
-        acc = [a for a in p.events if a.kind == 'atom' and a.d['term'][0] == 'discr' and has_call(a.d['term'][1], 'Option::map') and a.d['outcome'] in ('None', 'Some')]
-        key = (d1[0].d['outcome'] if d1 else None, acc[0].d['outcome'] if acc else None, fa[0].d['outcome'] if fa else None)
+        # presence of the beneficiary state write (however `account` is tested: map / match / if let)
+        acc = [of[1] for of in (option_fact(a) for a in p.events) if of and of[1] in ('None', 'Some') and strip(of[0]) == ('arg', 2)]
+        if d1 and d1[0].d['outcome'] == 'Some':
+            acc = []
+        key = (d1[0].d['outcome'] if d1 else None, acc[-1] if acc else None, fa[0].d['outcome'] if fa else None)
         val = variant_of(ret) + (':' + (variant_of(ret[3][0]) or '') if variant_of(ret) == 'Snapshot' else '')
         mp.add((key, val))
     exp = {(('Some', None, None), 'Reward'), (('None', 'None', None), 'Unchanged'), (('None', 'Some', 'Unchanged'), 'Unchanged'), (('None', 'Some', 'Deleted'), 'Snapshot:None'),
